@@ -37,9 +37,9 @@ macro_rules! for_ans_rows {
         $mac!(r_u8_u16, "u8/u16", u8, u16, [(u8, 1), (u8, 3), (u8, 8)]);
         $mac!(r_u8_u32, "u8/u32", u8, u32, [(u8, 1), (u8, 5), (u8, 8)]);
         $mac!(r_u8_u64, "u8/u64", u8, u64, [(u8, 8), (u8, 4)]);
-        $mac!(r_u16_u32, "u16/u32", u16, u32, [(u8, 7), (u16, 12), (u16, 16)]);
+        $mac!(r_u16_u32, "u16/u32", u16, u32, [(u8, 7), (u16, 12), (u16, 16), (u16, 15)]);
         $mac!(r_u16_u64, "u16/u64", u16, u64, [(u8, 8), (u16, 16), (u16, 11)]);
-        $mac!(r_u32_u64, "u32/u64", u32, u64, [(u8, 8), (u16, 12), (u16, 16), (u32, 24), (u32, 32)]);
+        $mac!(r_u32_u64, "u32/u64", u32, u64, [(u8, 8), (u16, 12), (u16, 16), (u32, 24), (u32, 32), (u32, 31)]);
         $mac!(r_u32_u128, "u32/u128", u32, u128, [(u32, 32), (u16, 9)]);
         $mac!(r_u64_u128, "u64/u128", u64, u128, [(u32, 24), (u8, 2)]);
     };
